@@ -284,6 +284,8 @@ def step (st : St) (line : String) : St × String :=
     | "lopen_auto_abs" :: r => "lopen_auto" :: r
     | ["lcommit_cd", l, _] => ["lcommit", l]
     -- the constructors `Writer::create(_with_algo)` / `SyncWriter::create(_with_algo)` are `open` with nothing declared
+    -- chunks handed over with `write_vectored` are the same bytes in the same order
+    | "wwritev" :: w :: ds => ["wwrite", w, "x" ++ String.join (ds.map (fun (d : String) => (d.drop 1).toString))]
     | ["wcreate", f, c, w, k, a] => ["wopen", f, c, w, k, "algo=" ++ a, "size=-", "sri=-", "time=-", "meta=-", "raw=-"]
     -- a target named relative to another working directory is the file <dir>/<rel> below the scratch root
     | ["link_to_cd", f, c, k, rel, dir] => ["link_to", f, c, k, "rel:" ++ dir ++ "/" ++ rel]
